@@ -60,7 +60,8 @@ class CP1Disk(CP1Object):
             center_coords = center.real_affine_coords()
 
             with np.errstate(divide="ignore", invalid="ignore"):
-                normed_ctr = utils.normalize(center_coords)
+                #normalize works in place: keep center_coords intact
+                normed_ctr = utils.normalize(np.copy(center_coords))
                 # we can just pick something arbitrary (unit-length)
                 # if we're at the origin
                 normed_ctr[utils.normsq(center_coords) == 0] = np.array([1.0, 0.0])
